@@ -16,6 +16,9 @@ Entry kinds:
     A  regular file; every A entry of one tree is the same source inode (a hardlink group)
     B  regular file, other content, same metadata and inode *number* as A but another st_dev (must not be linked to A)
     C  regular file, set-uid mode, other owner/mtime, its own inode (several C's = another hardlink group)
+    N / P / Q  regular files built by hand with dev and inode unset (what fsFile defaults to for non-scanned entries):
+       N and P have A's metadata and different data (P's data is an in-memory data source), Q has N's data and
+       another mtime; no two of them -- not even two N's -- were declared hardlinked
     sf / sd / sx   symlink to a file / to a directory / dangling
     ff fifo
     dir  (slot L only) an empty directory entry
@@ -47,6 +50,10 @@ KIND = {
     "A": dict(A_META, kind="file", data=b"A-data\n", dev=7, inode=100),
     "B": dict(A_META, kind="file", data=b"B-data-differs\n", dev=8, inode=100),
     "C": dict(kind="file", data=b"C!\n", mode=0o4755, uid=1234, gid=2345, mtime=1222222222, dev=7, inode=101),
+    # hand-built / vdb-style entries that declare no source inode at all (dev and inode unset): never hardlink candidates
+    "N": dict(A_META, kind="file", data=b"N-data\n", dev=None, inode=None),
+    "P": dict(A_META, kind="file", data=b"P-data-other\n", dev=None, inode=None, source="bytes"),
+    "Q": dict(A_META, kind="file", data=b"N-data\n", dev=None, inode=None, mtime=1111111112),
     "sf": dict(kind="sym", tname="u", mode=0o777, uid=1234, gid=2345, mtime=1333333333),
     "sd": dict(kind="sym", tname="x", mode=0o777, uid=1234, gid=2345, mtime=1333333333),
     "sx": dict(kind="sym", tname=None, mode=0o777, uid=1234, gid=2345, mtime=1333333333),
@@ -54,7 +61,8 @@ KIND = {
     "dir": dict(kind="dir", mode=0o2750, uid=1234, gid=2345, mtime=1444444444),
 }
 DIR_META = dict(kind="dir", mode=0o751, uid=1234, gid=2345, mtime=1444444445)
-FILE_KINDS = ("A", "B", "C")
+FILE_KINDS = ("A", "B", "C")  # entries that declare a source inode (equal dev+inode = one hardlink group)
+NOINODE_KINDS = ("N", "P", "Q")
 
 OLD_DATA = b"old-data-that-is-longer-than-any-new-data\n"
 STALE_DATA = b"stale-" * 12 + b"\n"
@@ -106,11 +114,13 @@ def build_src(src, scn):
     first = {}
     for slot in NONDIR_SLOTS:
         kind = scn["tree"].get(slot)
-        if kind not in FILE_KINDS:
+        if kind not in FILE_KINDS and kind not in NOINODE_KINDS:
             continue
         p = src + PATH[slot]
         os.makedirs(os.path.dirname(p), exist_ok=True)
-        if kind in first:
+        if kind in NOINODE_KINDS:
+            _write(p, KIND[kind]["data"])  # every such entry is its own source file
+        elif kind in first:
             os.link(first[kind], p)
         else:
             _write(p, KIND[kind]["data"])
@@ -191,7 +201,7 @@ def build_dst(dst, scn):
 def make_cset(src, scn):
     """The contents set handed to merge_contents (locations relative to '/')."""
     from pkgcore.fs import contents, fs
-    from snakeoil.data_source import local_source
+    from snakeoil.data_source import bytes_data_source, local_source
 
     objs = []
     if scn["dirs"] == "listed":
@@ -204,7 +214,13 @@ def make_cset(src, scn):
             continue
         m = entry_spec(slot, kind)
         common = dict(mode=m["mode"], uid=m["uid"], gid=m["gid"], mtime=m["mtime"])
-        if m["kind"] == "file":
+        if m["kind"] == "file" and kind in NOINODE_KINDS:
+            data = bytes_data_source(m["data"]) if m.get("source") == "bytes" else local_source(src + m["path"])
+            if kind == "P":
+                objs.append(fs.fsFile(m["path"], data=data, dev=None, inode=None, **common))
+            else:  # dev/inode not passed at all: fsFile's own defaults apply
+                objs.append(fs.fsFile(m["path"], data=data, strict=False, **common))
+        elif m["kind"] == "file":
             objs.append(fs.fsFile(m["path"], data=local_source(src + m["path"]), dev=m["dev"], inode=m["inode"], **common))
         elif m["kind"] == "sym":
             objs.append(fs.fsSymlink(m["path"], m["target"], **common))
@@ -398,8 +414,20 @@ def placed_violations(scn, dst, skip=()):
                 data = f.read()
             if data != m["data"]:
                 msgs.append(f"entry {m['path']} ({kind}) data {data!r}, recorded {m['data']!r}")
-            inodes.setdefault(kind, set()).add((lst.st_dev, lst.st_ino))
-    for kind, inos in sorted(inodes.items()):
-        if len(inos) > 1:
-            msgs.append(f"the {kind} entries share one source inode but were merged as {len(inos)} separate inodes")
+            # what the contents set declares: one group per equal non-None (dev, inode), otherwise the entry stands alone
+            declared = (m["dev"], m["inode"]) if None not in (m["dev"], m["inode"]) else ("alone", slot)
+            inodes[slot] = (declared, (lst.st_dev, lst.st_ino), lst.st_nlink, kind)
+    files_skipped = any(KIND[scn["tree"][s]]["kind"] == "file" for s in skip if s in scn["tree"])
+    done = sorted(inodes)
+    for i, s1 in enumerate(done):
+        d1, got1, nlink1, k1 = inodes[s1]
+        for s2 in done[i + 1 :]:
+            d2, got2, _n, k2 = inodes[s2]
+            if d1 == d2 and got1 != got2:
+                msgs.append(f"the {k1} entries {PATH[s1]} and {PATH[s2]} share one source inode but were merged as separate inodes")
+            elif d1 != d2 and got1 == got2:
+                msgs.append(f"{PATH[s1]} ({k1}) and {PATH[s2]} ({k2}) were not declared hardlinked (dev/inode {d1[0] if d1[0] != 'alone' else None} vs {d2[0] if d2[0] != 'alone' else None}) but share one inode after the merge")
+        want = sum(1 for s in done if inodes[s][0] == d1)
+        if not files_skipped and nlink1 != want:
+            msgs.append(f"{PATH[s1]} ({k1}) has st_nlink {nlink1} after the merge, the contents set declares a group of {want}")
     return msgs
